@@ -76,7 +76,8 @@ def build_harness(profile="release"):
 
 def tlc_cmd(module, cfg=None, workers=1, metadir=None, xmx="2g", extra=()):
     d = SPEC if os.path.exists(f"{SPEC}/{module}.tla") else f"{SPEC}/impl"
-    cmd = ["java", "-Xss1g", "-XX:+UseParallelGC", f"-Xmx{xmx}", f"-DTLA-Library={SPEC}",
+    gc = ["-XX:ParallelGCThreads=2"] if int(workers) <= 2 else []      # many single-worker JVMs run side by side
+    cmd = ["java", "-Xss1g", "-XX:+UseParallelGC"] + gc + [f"-Xmx{xmx}", f"-DTLA-Library={SPEC}",
            "-cp", f"{TLA_CP}:{OVR}", "tlc2.TLC", "-workers", str(workers), "-metadir", metadir,
            "-cleanup", "-noGenerateSpecTE"]
     cmd += ["-config", cfg or f"{module}.cfg"]
